@@ -11,7 +11,8 @@
 //!        earlier slot.  FAILS on /repo (finding).
 //! `c13_once`  any state with a completed block: NoAction, nothing changes (exactly once).
 //! `c13_noaction`  no last-slice marker / a slice missing / late slice completes once.
-//! `c13_fastpath_n1`  the leader's `add_own_slice` stores the block a follower assembles.
+//! `c13_fastpath_n1`  the leader's `add_own_slice` stores the block a follower assembles - NOT
+//!        registered: 2.8 M symex steps / 7.5 M SAT variables (measured), over the memory cap.
 #![allow(dead_code, unused_imports, unused_variables, clippy::all)]
 
 use super::*;
@@ -187,23 +188,10 @@ fn outcome(r: ReconstructBlockResult) -> Outcome {
 
 /// `CLASS_OK`: the general harnesses (effective parent in an earlier slot, or malformed);
 /// otherwise the complementary class (well-formed, effective parent NOT in an earlier slot).
-///
-/// `HASHREF`: compare the block hash with the reference tree shape, under the collision-free hash
-/// oracle.  For three slices this is done in the shape without later parents only; the shapes with
-/// later parents run under the *havoc* hash (arbitrary outputs, an over-approximation of SHA-256)
-/// and check verdict, parent and stored state - none of which depends on hash values.  (With the
-/// oracle and the parent logic together the solver input exceeds the memory cap: measured 796 k
-/// steps, out of memory at 10 GB.)
-fn assemble_body<const N: usize, const CLASS_OK: bool, const HASHREF: bool>(has_parent: [bool; N], undec: usize) {
-    if HASHREF {
-        // oracle: real tree (N leaves + < N + 2 inner), reference (same), one proof check (1 + height)
-        km::init_oracle(4, 4 * N + 8);
-    } else {
-        // havoc hash: N leaves + < N + 2 inner nodes of the real tree
-        km::init_havoc(2 * N + 2);
-    }
-    let mut inp = any_input::<N>();
-    if N == 3 { inp.parents[2].hash = inp.parents[0].hash; } // DEVTEST
+fn assemble_body<const N: usize, const CLASS_OK: bool>(has_parent: [bool; N], undec: usize) {
+    // oracle: real tree (N leaves + < N + 2 inner), reference (same), one proof check (1 + height)
+    km::init_oracle(4, 4 * N + 8);
+    let inp = any_input::<N>();
     let proof_at = vs::any_below(N as u8) as usize;
     let want = reference(&inp, has_parent, undec);
     let earlier = match &want {
@@ -215,7 +203,7 @@ fn assemble_body<const N: usize, const CLASS_OK: bool, const HASHREF: bool>(has_
     } else {
         vs::assume(!earlier);
     }
-    let want_hash = if HASHREF { ref_block_hash(&inp) } else { km::w2h([0; 4]) };
+    let want_hash = ref_block_hash(&inp);
     let mut bd = mk_block_data(&inp, has_parent, undec);
 
     let r1 = outcome(bd.try_reconstruct_block());
@@ -241,9 +229,7 @@ fn assemble_body<const N: usize, const CLASS_OK: bool, const HASHREF: bool>(has_
                 vcheck!(p.is(&info.parent), "the announced parent is not the first slice's parent / the single later switch");
                 cv_switched = !p.same(&inp.parents[0]);
             }
-            if HASHREF {
-                vcheck!(vs::words_eq(&km::block_hash_words(&info.hash), &km::h2w(&want_hash)), "block hash is not the double-Merkle root of the slice roots in index order");
-            }
+            vcheck!(vs::words_eq(&km::block_hash_words(&info.hash), &km::h2w(&want_hash)), "block hash is not the double-Merkle root of the slice roots in index order");
             // what is stored is what was announced, and can be served afterwards
             match &bd.completed {
                 Some((h, b)) => {
@@ -306,20 +292,7 @@ macro_rules! assemble {
         #[cfg_attr(kani, kani::unwind(34))]
         #[cfg_attr(verif_replay, test)]
         fn $name() {
-            assemble_body::<$n, $ok, true>($hp, $undec)
-        }
-    };
-}
-macro_rules! assemble_havoc {
-    ($name:ident, $n:literal, $hp:expr, $undec:expr, $ok:literal) => {
-        #[cfg_attr(kani, kani::proof)]
-        #[cfg_attr(kani, kani::stub(crate::crypto::hash::hash_all, crate::crypto::merkle::kani_c12_merkle::hash_all_havoc))]
-        #[cfg_attr(kani, kani::stub(log::max_level, crate::crypto::merkle::kani_c12_merkle::log_off))]
-        #[cfg_attr(kani, kani::stub(wincode::config::deserialize_exact, crate::consensus::blockstore::slot_block_data::kani_c13::deserialize_exact_model))]
-        #[cfg_attr(kani, kani::unwind(34))]
-        #[cfg_attr(verif_replay, test)]
-        fn $name() {
-            assemble_body::<$n, $ok, false>($hp, $undec)
+            assemble_body::<$n, $ok>($hp, $undec)
         }
     };
 }
@@ -329,11 +302,17 @@ assemble!(c13_assemble_n2_p0, 2, [true, false], NONE, true);
 assemble!(c13_assemble_n2_p2, 2, [true, true], NONE, true);
 assemble!(c13_assemble_n3_p0, 3, [true, false, false], NONE, true);
 assemble!(c13_assemble_n3_p2, 3, [true, true, false], NONE, true);
+// The shapes with a parent on the third slice (p4 = [true, false, true], p6 = [true, true, true], the
+// only ones with two later parents) exceed the 10 GB cap in CBMC's propositional post-processing
+// (measured, also for the bare call without any check, with either map stand-in and with a hash
+// stub that returns arbitrary values); they are kept for a machine with more memory but not registered in spec.py.
 assemble!(c13_assemble_n3_p4, 3, [true, false, true], NONE, true);
 assemble!(c13_assemble_n3_p6, 3, [true, true, true], NONE, true);
 assemble!(c13_undec_n1_p0_u0, 1, [true], 0, true);
 assemble!(c13_undec_n2_p2_u1, 2, [true, true], 1, true);
 assemble!(c13_parent_slot_n1, 1, [true], NONE, false);
+// finds the violation, but the counterexample-extraction run (no slicing) exceeds the memory cap with
+// CaDiCaL, kissat and an arbitrary-value hash stub alike => not replayable => not registered while the defect exists
 assemble!(c13_parent_slot_n2, 2, [true, true], NONE, false);
 
 // ---------------------------------------------------------------------------------------
@@ -479,4 +458,88 @@ fn c13_fastpath_n1() {
     std::mem::forget(leader);
     std::mem::forget(follower);
     vcover!(same, "leader and follower agree on the block");
+}
+
+// ---------------------------------------------------------------------------------------
+// Native demonstration of the c13_parent_slot finding through the real dissemination path
+// (real RegularShredder, Ed25519, SHA-256, async BlockstoreImpl and PoolImpl):
+// `cargo test --lib c13_demo_parent_slot` in the native overlay build.  Not a Kani harness.
+// ---------------------------------------------------------------------------------------
+#[cfg(all(verif_replay, not(kani), test))]
+mod demo {
+    use std::sync::Arc;
+
+    use tokio::sync::mpsc;
+
+    use super::*;
+    use crate::consensus::blockstore::{Blockstore, BlockstoreImpl};
+    use crate::consensus::epoch_info::ValidatorEpochInfo;
+    use crate::consensus::{Pool, PoolImpl};
+    use crate::crypto::signature::SecretKey;
+    use crate::shredder::Shredder;
+    use crate::test_utils::{create_random_block, generate_validators};
+    use crate::types::ValidatorIndex;
+
+    /// What `Alpenglow::handle_disseminator_shred` does with every shred received from the leader:
+    /// validate, store, and on a completed block call `Pool::add_block(block_id, block_info.parent)`.
+    async fn deliver(slot: Slot, parent: BlockId) -> (BlockId, BlockId, PoolImpl) {
+        let sk = SecretKey::new(&mut rand::rng());
+        let pk = sk.to_pk();
+        let mut slices = create_random_block(slot, 1);
+        // a (Byzantine) leader signs a block that names a parent in a later slot
+        slices[0].parent = Some(parent.clone());
+        let shreds = RegularShredder::default().shred(&slices[0], &sk).unwrap();
+
+        let (tx, _rx) = mpsc::channel(1000);
+        let mut bs = BlockstoreImpl::new(tx);
+        let mut announced = None;
+        for s in shreds {
+            // full validation of the wire shred under the leader's key
+            let cached = bs.cached_commitment(slot, SliceIndex::first());
+            let v = ValidatedShred::try_new(s.into_shred(), cached.as_ref(), &pk).expect("leader-signed shred validates");
+            match bs.add_shred_from_dissemination(v).await {
+                Ok(Some(info)) => announced = Some(info),
+                Ok(None) | Err(AddShredError::Duplicate) => {}
+                Err(e) => panic!("unexpected blockstore verdict {e:?}"),
+            }
+        }
+        let info = announced.expect("the blockstore reconstructs and announces the block");
+        assert_eq!(info.parent, parent);
+
+        let (_sks, epoch_info) = generate_validators(4);
+        let epoch_info = Arc::new(ValidatorEpochInfo::new(ValidatorIndex::new(0), epoch_info));
+        let (votor_tx, _votor_rx) = mpsc::channel(1024);
+        let (repair_tx, _repair_rx) = mpsc::channel(1024);
+        let pool = PoolImpl::new(epoch_info, votor_tx, repair_tx);
+        ((slot, info.hash), info.parent, pool)
+    }
+
+    /// Control: a parent in an earlier slot goes through.
+    #[tokio::test]
+    async fn c13_demo_parent_earlier_ok() {
+        let (block, parent, mut pool) = deliver(Slot::new(5), (Slot::new(3), GENESIS_BLOCK_HASH_DEMO())).await;
+        pool.add_block(block, parent).await;
+    }
+
+    /// The finding: the block is announced with a parent in slot 7 > 5 and the next statement of the
+    /// message loop (`Pool::add_block`) panics on `assert!(block_id.0 > parent_id.0)`.
+    #[tokio::test]
+    #[should_panic(expected = "block_id.0 > parent_id.0")]
+    async fn c13_demo_parent_slot() {
+        let (block, parent, mut pool) = deliver(Slot::new(5), (Slot::new(7), GENESIS_BLOCK_HASH_DEMO())).await;
+        pool.add_block(block, parent).await;
+    }
+
+    /// Same for a parent in the block's own slot.
+    #[tokio::test]
+    #[should_panic(expected = "block_id.0 > parent_id.0")]
+    async fn c13_demo_parent_same_slot() {
+        let (block, parent, mut pool) = deliver(Slot::new(5), (Slot::new(5), GENESIS_BLOCK_HASH_DEMO())).await;
+        pool.add_block(block, parent).await;
+    }
+
+    #[allow(non_snake_case)]
+    fn GENESIS_BLOCK_HASH_DEMO() -> BlockHash {
+        km::block_hash_of(km::w2h([7, 7, 7, 7]))
+    }
 }
